@@ -541,8 +541,10 @@ Reopen(e) ==
                   Fr(\A c2 \in Colls : e.marks[c2] >= maxCas(c2) /\ e.marks["bucket"] >= maxCas(c2),
                      <<"high-water-mark-behind-document", e.site>>, [c2 \in Colls |-> maxCas(c2)], e.marks)
         fTimer == IF ~opened THEN 0 ELSE Fr(e.anyexp => e.timerarmed, <<"pending-expiration-not-rearmed", e.site>>, TRUE, e.timerarmed)
+        \* ... also one whose deadline passed while nobody had the bucket open
+        fLate == IF ~opened THEN 0 ELSE Fr(e.late => e.lategone, <<"overdue-expiration-lost", e.site>>, TRUE, e.lategone)
     IN
-    /\ nfail' = nfail + fOpen + fAtomic + fReaders + fIdent + fMarks + fTimer
+    /\ nfail' = nfail + fOpen + fAtomic + fReaders + fIdent + fMarks + fTimer + fLate
     /\ UNCHANGED <<docs, obs, dumps, clock, start, evlog, verlog, auxs, vdef>>
 
 
